@@ -17,8 +17,8 @@ import EpModel.Props.C05
   The strict struct-decoding doors (PacketHeaders::from_ethernet_slice / from_ether_type / from_ip_slice) are
   covered through C04 (`headers_len_error_describes_fault_partial`).  Lax stop errors of LaxSlicedPacket::from_ether_type are
   covered through the lax refinement of C05 (`lax_stop_error_describes_fault_partial`; the Ethernet and IP doors
-  have the same statement in Props/C05: `lax_ethernet_stop_iff_fault`, `lax_ip_stop_iff_fault`).  The IpHeaders
-  family and LaxPacketHeaders are covered by the correspondence + oracle (tools/epcheck/props/c07.py) and,
+  have the same statement in Props/C05: `lax_ethernet_stop_iff_fault`, `lax_ip_stop_iff_fault`).  `IpHeaders::from_slice` is covered by
+  `ip_headers_len_error_describes_fault_partial`.  The other IP boundary copies and LaxPacketHeaders are covered by the correspondence + oracle (tools/epcheck/props/c07.py) and,
   up to the wording differences listed there, by C04's lax agreement.
 -/
 namespace EpModel.Props.C07
@@ -258,6 +258,34 @@ theorem headers_len_error_describes_fault_partial (x : Entry) (b : Bytes) (e : L
     (h : x.runHeaders b = some (.error (.len e))) :
     ∃ f, Spec.decode x.start (memOf b) b.length = .error f ∧ DescribesPartial e f :=
   len_error_describes_fault_partial x b e hs (headers_error_is_slicing_error x b (.len e) hs h)
+
+/-- C07 for `IpHeaders::from_slice` (the struct door of the IP layer alone): its length errors describe
+    the fault of the bytes read from the IP start, with the same two known exceptions -/
+theorem ip_headers_len_error_describes_fault_partial (b : Bytes) (e : LenError)
+    (hs : ¬ Entry.shortV4 b .ip) (h : ipHeadersFromSlice (memOf b) 0 b.length = .error (.len e)) :
+    ∃ f, Spec.decode .ip (memOf b) b.length = .error f ∧ DescribesPartial e f := by
+  apply len_error_describes_fault_partial .ip b e hs
+  simp only [Entry.run]
+  rcases ipHeaders_vs_ipSlice (memOf b) 0 b.length with ⟨h4, h20, _, _⟩ | hv
+  · -- fewer than 20 bytes with an IPv4 nibble: excluded, unless the input is empty
+    have hz : b.length = 0 := by
+      by_cases h0 : 0 < b.length
+      · exact absurd (show Entry.shortV4 b .ip from ⟨h4, h0, h20⟩) hs
+      · omega
+    rw [hz] at h ⊢
+    unfold ipHeadersFromSlice ipDispatchHeader at h
+    simp at h
+    unfold slicedFromIp Cur.sliceIp ipSliceFromSlice ipDispatchHeader
+    simp [← h, lenAddOff, LenError.addOffset, Cur.new]
+  · rw [h] at hv
+    cases hf : ipSliceFromSlice (memOf b) 0 b.length with
+    | ok x => rw [hf] at hv; simp [IpVerdict] at hv
+    | error e' =>
+      rw [hf] at hv
+      simp only [IpVerdict] at hv
+      unfold slicedFromIp Cur.sliceIp
+      rw [hf, ← hv]
+      simp [lenAddOff, LenError.addOffset, Cur.new]
 
 /-! ### lax stop errors (through the lax refinement of C05) -/
 
